@@ -22,6 +22,14 @@ func vxH_C12_previousRevert() {
 		vxExec(coll, ents)
 		layers = append(layers, ents)
 		vxDrain(coll)
+		// the history chain must survive a clean close + reopen
+		if r < rounds-1 && vxChoose(2) == 1 {
+			coll.Close()
+			store.Close()
+			vxQuiesce()
+			store, coll, err = OpenStoreCollection(fs.dir, so, po)
+			vxAssert("mid-reopen-ok", err == nil)
+		}
 	}
 	// walk back: snapshot i steps back reads the reference of round n-i
 	cur, err := store.Snapshot()
